@@ -157,9 +157,23 @@ def b_isinstance(I, v, t):
     return False
 
 
+def b_set(I, v=()):
+    """set(...) of concrete integers / strings only: the distinct values (as a list; callers sort or test membership)"""
+    xs = _items(I, v)
+    if not all(isinstance(x, (int, str)) and not isinstance(x, bool) for x in xs):
+        raise Unsupported("set() of symbolic or non-scalar elements")
+    out = []
+    for x in xs:
+        if x not in out:
+            out.append(x)
+    return PList(out)
+
+
 def b_sorted(I, v, key=None, reverse=False):
     """Stable sort of a concrete-length list with symbolic keys: insertion network."""
     xs = _items(I, v)
+    if key is None and all(isinstance(x, int) and not isinstance(x, bool) for x in xs):
+        return PList(sorted(xs, reverse=bool(reverse)))
     ks = [I.call(key, [x], {}) for x in xs] if key is not None else list(xs)
     n = len(xs)
     if n <= 1:
@@ -234,7 +248,7 @@ BUILTINS = {
     'reversed': Builtin('reversed', b_reversed), 'sum': Builtin('sum', b_sum), 'slice': Builtin('slice', b_slice),
     'int': Builtin('int', b_int), 'bool': Builtin('bool', b_bool), 'isinstance': Builtin('isinstance', b_isinstance),
     'sorted': Builtin('sorted', b_sorted), 'type': Builtin('type', b_type), 'map': Builtin('map', b_map),
-    'filter': Builtin('filter', b_filter), 'getattr': Builtin('getattr', b_getattr),
+    'filter': Builtin('filter', b_filter), 'getattr': Builtin('getattr', b_getattr), 'set': Builtin('set', b_set),
     'None': None, 'True': True, 'False': False, 'Ellipsis': Ellipsis,
 }
 for _t in ('str', 'float', 'dict', 'set', 'object', 'bytes', 'frozenset'):
